@@ -679,9 +679,6 @@ func (k Keeper) ValidateUnjailMessage(ctx sdk.Ctx, msg types.MsgUnjail) (addr sd
 	if !found {
 		return nil, types.ErrNoValidatorForAddress(k.Codespace())
 	}
-	if info.JailedUntil.After(time.Now()) {
-		return nil, types.ErrValidatorJailed(k.Codespace())
-	}
 	// cannot be unjailed until out of jail
 	if ctx.BlockHeader().Time.Before(info.JailedUntil) {
 		return nil, types.ErrValidatorJailed(k.Codespace())
